@@ -99,6 +99,17 @@ Next == \/ \E u \in User, k \in Token : Send(u, k)
         \/ Probe
 Spec == Init /\ [][Next]_vars
 
+Do(e) ==
+  CASE e.name = "Send"         -> Send(e.u, e.k)
+    [] e.name = "Cancel"       -> Cancel(e.u, e.id)
+    [] e.name = "RequestBatch" -> RequestBatch(e.k)
+    [] e.name = "FxBlock"      -> FxBlock
+    [] e.name = "ExtBlock"     -> ExtBlock
+    [] e.name = "ExtOther"     -> ExtOther
+    [] e.name = "ExtExecBatch" -> ExtExecBatch(e.id)
+    [] e.name = "Observe"      -> Observe
+    [] OTHER -> FALSE
+
 \* ---- C04 per token
 Present(i) == tx[i].st \in {"pool", "batch"}
 InFlight(k) == 2 * Cardinality({i \in TxIds : Present(i) /\ tx[i].k = k})
@@ -128,4 +139,6 @@ EdgeDump == /\ IF op.name = "Init" \/ op'.res = "ok"
                THEN PrintT(<<"EDGE", ToJson([from |-> Abs, op |-> op', to |-> Abs'])>>)
                ELSE TRUE
             /\ Bounded
+\* alphabet only: print every operation attempted in the initial state, expand nothing (recorder runs)
+AlphabetDump == PrintT(<<"EDGE", ToJson([from |-> Abs, op |-> op', to |-> Abs'])>>) /\ FALSE
 =============================================================================
